@@ -130,6 +130,16 @@ FunctorManager::Env FunctorManager::createEnv(Context& caller, unsigned id, cons
     _ctx->recursion(r + 1);
     _ctx->trace(caller.trace());
     _ctx->returnCondition(false);
+    /* a recycled context starts like a new one: local variables are unset
+     * and symbols are back to their compiled type, so that a call never
+     * depends on a previous call */
+    const Context * proto = entry.functor->ctx;
+    for (size_t i = 0; i < _ctx->_storage_pool.size(); ++i)
+    {
+      if (i < proto->_storage_pool.size())
+        *(_ctx->_storage_pool[i].symbol) = *(proto->_storage_pool[i].symbol);
+      _ctx->_storage_pool[i].value = Value(*(_ctx->_storage_pool[i].symbol));
+    }
   }
 
   assert(entry.functor->params.size() == pvals.size());
